@@ -36,7 +36,14 @@ def cases(draw):
     if n >= 2 and draw(st.integers(0, 2)) == 0:
         i = draw(st.integers(0, n - 1))
         pairs[i]["a" if draw(st.booleans()) else "b"] = draw(st.sampled_from((0, R)))   # identity at a drawn position
-    c = {"pairs": pairs, "dirty": draw(st.booleans()), "rounds": draw(st.sampled_from((1, 1, 2))), "cpp": draw(st.booleans())}
+    if n >= 2 and draw(st.integers(0, 2)) == 0:
+        # e(P1,Q) * e(P2,Q): neighbouring pairs of the same kind with the same second argument (the first of them possibly with an
+        # identity first argument); with "share" they refer to one and the same object
+        i = draw(st.integers(1, n - 1))
+        pairs[i]["b"], pairs[i]["j2"], pairs[i]["prep"] = pairs[i - 1]["b"], pairs[i - 1]["j2"], pairs[i - 1]["prep"]
+        if draw(st.booleans()):
+            pairs[i - 1]["a"] = draw(st.sampled_from((0, R)))
+    c = {"pairs": pairs, "dirty": draw(st.booleans()), "rounds": draw(st.sampled_from((1, 1, 2))), "cpp": draw(st.booleans()), "share": draw(st.booleans())}
     if c["rounds"] == 2 and n >= 1 and draw(st.booleans()):
         # the second call runs on other points written over the same storage, the caller's pair records stay as they are:
         # identities become points and points become identities at drawn positions
@@ -93,10 +100,10 @@ def check(ctx, lib, c):
     if second:
         keep2, g1b2, g2b2, pb2 = images(second)
         f = lib.fn("vf_pairing_sum2", ctypes.c_long, [V, ctypes.c_size_t, V, V, ctypes.c_size_t, V, ctypes.c_int, ctypes.c_int, V, V, V])
-        rv = f(lib.O.ptr, len(aff), V(g1base), V(g2base), len(prep), V(pbase), 1 if c["dirty"] else 0, rounds, V(g1b2), V(g2b2), V(pb2))
+        rv = f(lib.O.ptr, len(aff), V(g1base), V(g2base), len(prep), V(pbase), (1 if c["dirty"] else 0) | (2 if c.get("share") else 0), rounds, V(g1b2), V(g2b2), V(pb2))
     else:
         f = lib.fn("vf_pairing_sum", ctypes.c_long, [V, ctypes.c_size_t, V, V, ctypes.c_size_t, V, ctypes.c_int, ctypes.c_int])
-        rv = f(lib.O.ptr, len(aff), V(g1base), V(g2base), len(prep), V(pbase), 1 if c["dirty"] else 0, rounds)
+        rv = f(lib.O.ptr, len(aff), V(g1base), V(g2base), len(prep), V(pbase), (1 if c["dirty"] else 0) | (2 if c.get("share") else 0), rounds)
     lib.dll.vf_set_use_cpp(0)
     outs = [lib.O.read(576, 576 * i) for i in range(rounds)]
     e = sum(p["a"] * p["b"] for p in pairs) % R
